@@ -4,6 +4,32 @@ lean/props.json) and the table of seeded changes (from seeded/*/meta.json)."""
 import json, os, re, glob
 ROOT = os.path.dirname(os.path.dirname(os.path.abspath(__file__)))
 
+
+# (Rust source, what is translated, generated file, module with the equality / agreement theorems)
+COVERAGE = [
+    ('codes/{gamma,delta,zeta}_tables.rs', 'every array and constant', 'Gen/Tables{Gamma,Delta,Zeta}', 'C05 (whole-table `decide +kernel` against the published codewords), TableFnsGenSizes'),
+    ('codes/{gamma,delta,zeta}_tables.rs', '`read_table_*`, `write_table_*`, `len_table_*`', 'Gen/TableFns', 'TableFnsGen'),
+    ('codes/params.rs', 'which `*_param::<..>` each default method selects', 'Gen/Params', 'C05, Transport'),
+    ('codes/*.rs', 'every `len_*` function', 'Gen/LenFormulas', 'LenGen'),
+    ('codes/{gamma,delta,zeta,pi,rice,golomb,exp_golomb,minimal_binary}.rs', 'reader and writer bodies, `*Param` impls', 'Gen/CodeBodies', 'CodeBodiesGen, Bounded'),
+    ('codes/omega.rs', 'recursive writer, reader loop', 'Gen/OmegaBodies', 'OmegaGen'),
+    ('codes/vbyte.rs', 'bit-stream readers/writers; byte-level functions and their endianness dispatch', 'Gen/VByteBodies, Gen/VByteIOBodies', 'VByteGen, VByteIOGen'),
+    ('codes/mod.rs', '`ToInt::to_int`, `ToNat::to_nat`, the implementing types', 'Gen/ZigZagBodies', 'ZigZagGen'),
+    ('impls/buf_bit_writer.rs', '`write_bits`, `write_unary`, `flush`, `copy_from` (BE, LE), `io::Write::write`, `into_inner`, `Drop`', 'Gen/BufWriterBodies, Gen/IOBodies, Gen/TeardownBodies', 'BufWriterGen, BufWriterCopyGen, BufWriterCopyWideGen, IOGen, TeardownGen'),
+    ('impls/buf_bit_reader.rs', '`refill`, `peek_bits`, `skip_bits_after_peek`, `read_bits`, `read_unary`, `skip_bits`, `bit_pos`, `set_bit_pos`, `copy_to` (BE, LE), `io::Read::read`, `into_inner`', 'Gen/BufReaderBodies, Gen/CopyBodies, Gen/IOBodies, Gen/TeardownBodies', 'BufReaderGen, CopyGen, IOGen, TeardownGen, Bounded'),
+    ('impls/bit_reader.rs', 'the same methods of the unbuffered reader', 'Gen/BitReaderBodies', 'BitReaderGen, Bounded'),
+    ('traits/bits.rs', 'trait-default `copy_to` / `copy_from`; `check_tables` and the constructor arguments', 'Gen/CopyBodies, Gen/CheckTablesBodies', 'CopyGen, CheckTablesGen'),
+    ('traits/endianness.rs', 'associated constants', 'Gen/EndianConsts', 'EndianGen'),
+    ('impls/mem_word_reader.rs, mem_word_writer.rs', 'every method (`read_word`, `write_word`, positions, seeks, `into_inner`)', 'Gen/MemWordBodies, Gen/TeardownBodies', 'MemWordGen, TeardownGen'),
+    ('impls/word_adapter.rs', 'every method, std calls as parameters (`read_exact`, `write_all`, `seek`, `stream_position`)', 'Gen/AdapterBodies', 'AdapterGen'),
+    ('dispatch/{static,dynamic,factory,codes}.rs', 'every match-arm list, constant table, `Display` / `FromStr` / `PartialEq` lists', 'Gen/Dispatch, Gen/CodesText', 'C10, C16, DispatchCommon'),
+    ('utils/count.rs', '`BitRead` / `BitWrite` and code-trait impls of both wrappers, `into_inner`', 'Gen/CountBodies, Gen/TeardownBodies', 'CountGen, TeardownGen'),
+    ('utils/dbg_codes.rs', 'every method of both tracing wrappers', 'Gen/DbgBodies', 'DbgGen'),
+    ('utils/stats.rs', 'offsets and orders; `update_many`, `update`, `add`, `AddAssign`, `Add`, `Sum`, `best_code`, wrapper `read` / `write` (lock as a primitive)', 'Gen/StatsOffsets, Gen/StatsBodies', 'C15, StatsGen'),
+    ('utils/find_change.rs', '`FindChangePoints::next`', 'Gen/FindChangeBody', 'FindChangeGen'),
+    ('utils/implied.rs', 'not translated (float weights; the change points it consumes are `find_change.rs`)', '—', 'correspondence only (`FC` family)'),
+]
+
 def block(name, text, s):
     b, e = '<!-- %s:BEGIN -->' % name, '<!-- %s:END -->' % name
     if b not in s:
@@ -34,6 +60,20 @@ def main():
         rows.append('| %s | %s | %s | %s | %s |' % (m.get('id'), m.get('property'), (m.get('source') or '')[:60], ', '.join(caught) or '—',
                                                   ', '.join(x for x in ran if x not in caught) or '—'))
     s = block('SEEDS', '\n'.join(rows), s)
+    gen = os.path.join(ROOT, 'lean', 'Dsi', 'Gen')
+    props_dir = os.path.join(ROOT, 'lean', 'Dsi', 'Props')
+    crow = ['## 4.1-bis. Translator coverage as built (generated by `tools/mkdesign.py`; one row per translated source)', '',
+            'Every row is regenerated from `/repo` on every run of every check; the modules in the last column prove the',
+            'regenerated definitions equal to (or, for data, consistent with) the hand model the property theorems are about.',
+            'A row whose proof module is missing from `lean/Dsi/Props` is marked *(absent)*.', '',
+            '| Rust source | translated | generated Lean | proved in |', '|---|---|---|---|']
+    for (rs, what, g, mods) in COVERAGE:
+        marks = []
+        for m in re.findall(r'[A-Za-z0-9]+Gen[A-Za-z]*|Bounded', mods):
+            if not os.path.exists(os.path.join(props_dir, m + '.lean')):
+                marks.append(m)
+        crow.append('| `%s` | %s | `%s` | %s%s |' % (rs, what, g, mods, (' *(absent: %s)*' % ', '.join(marks)) if marks else ''))
+    s = block('COVERAGE', '\n'.join(crow), s)
     open(p, 'w').write(s)
 
 if __name__ == '__main__':
